@@ -82,6 +82,7 @@ type histRun struct {
 }
 
 func (h *histRun) count(c string) { h.counts[c]++ }
+
 // oracle clauses that belong to C17 only (the rogue suite of C11 does not judge them)
 var c17Only = map[string]bool{"entry-altered": true, "banned-entry-rewritten": true, "identity-changed": true, "migration-list": true,
 	"entered-unsigned": true, "persist-mismatch": true, "restart-differs": true, "restart-refused-empty-server-list": true}
